@@ -4,7 +4,7 @@
  * every load/store is bounds- and liveness-checked (for symbolic offsets by a solver query)
  * branches on symbolic conditions fork; infeasible sides are pruned by the solver
  * unmodelled instruction/callee => Unmodelled (the obligation is inconclusive, never a pass)"""
-import re, time, struct
+import os, re, time, struct
 import z3
 from .irparse import Module, split_top, split_tv, strip_attrs
 
@@ -155,6 +155,21 @@ NOP_FUNCS = {'_ZN4FEAT7Backend21get_preferred_backendEv': 0, 'fprintf': 0, 'fwri
              '_ZNSt18condition_variableC1Ev': None, '_ZNSt18condition_variableD1Ev': None, '_ZNSt18condition_variableC2Ev': None, '_ZNSt18condition_variableD2Ev': None}
 
 
+def cvc5_unsat(smt2, tlimit=120):
+    """True iff the cvc5 command line solver (integer encoding of bit-vectors) answers unsat without any error line"""
+    import subprocess, tempfile
+    with tempfile.NamedTemporaryFile('w', suffix='.smt2', delete=False, dir=(lambda d: d if os.path.isdir(d) else None)(os.path.join(os.path.dirname(os.path.dirname(os.path.abspath(__file__))), 'build'))) as f:
+        f.write(smt2); name = f.name
+    try:
+        r = subprocess.run(['/usr/bin/cvc5', '--solve-bv-as-int=sum', '--tlimit=%d' % (tlimit * 1000), name], capture_output=True, text=True, timeout=tlimit + 30)
+        out = r.stdout.strip()
+        return out == 'unsat' and '(error' not in r.stdout + r.stderr
+    except Exception:
+        return False
+    finally:
+        os.remove(name)
+
+
 class Executor:
     def __init__(self, module, max_steps=2000000, max_paths=20000, timeout=None):
         self.m = module
@@ -183,13 +198,27 @@ class Executor:
         return r == z3.sat
 
     def must_hold(self, pc, prop):
-        """True iff pc => prop; returns (bool, model or None)"""
+        """True iff pc => prop; returns (bool, model or None).  z3 gets a short budget first; a query it does not finish (adder chains over
+        64-bit words) is handed to cvc5 with the integer encoding of bit-vectors (mod 2^64 semantics kept); only 'unsat' is taken from cvc5,
+        a 'sat' answer is re-derived with z3 (no time limit) to obtain the model"""
         if prop is True:
             return True, None
         self.stats['queries'] += 1; t = time.time()
         self.solver.push(); self.solver.add(*[c for c in pc if c is not True]); self.solver.add(z3.Not(prop) if is_sym(prop) else z3.BoolVal(not prop))
-        r = self.solver.check(); mdl = self.solver.model() if r == z3.sat else None
-        self.solver.pop(); self.stats['qtime'] += time.time() - t
+        try:
+            self.solver.set('timeout', 4000)
+            r = self.solver.check()
+            if r == z3.unknown:
+                self.stats['ext_queries'] = self.stats.get('ext_queries', 0) + 1
+                if cvc5_unsat('(set-logic QF_BV)\n' + self.solver.to_smt2()):
+                    r = z3.unsat
+                else:
+                    self.solver.set('timeout', 600000)
+                    r = self.solver.check()
+            mdl = self.solver.model() if r == z3.sat else None
+        finally:
+            self.solver.set('timeout', 4294967295)
+            self.solver.pop(); self.stats['qtime'] += time.time() - t
         if r == z3.unknown:
             raise Unmodelled('solver returned unknown')
         return r == z3.unsat, mdl
@@ -778,7 +807,12 @@ class Executor:
                 pt = m.parse_type(ty)
                 if pt[0] in ('struct', 'array'):
                     env[dest] = self._load_agg(st, self.const(st, pv, pty, env), ty); continue
-                v = self.load(st, self.const(st, pv, pty, env), m.tybytes(ty))
+                lp = self.const(st, pv, pty, env)
+                if pt[0] in ('float', 'double') and isinstance(lp, Ptr) and is_sym(simp(lp.off)):
+                    # floating-point cells are concrete values: a symbolic position is decided by forking over its feasible values
+                    self._chk(st, lp, m.tybytes(ty), 'load')
+                    lp = Ptr(lp.reg, self.concretize(st, lp.off, work, maxvals=64))
+                v = self.load(st, lp, m.tybytes(ty))
                 if pt[0] == 'int' and pt[1] == 1:
                     v = (v != 0) if not is_sym(v) else (v if z3.is_bool(v) else simp(z3.Extract(0, 0, v) == 1))
                 elif pt[0] == 'int' and pt[1] < 8 * m.tybytes(ty) and not isinstance(v, (Ptr, FuncPtr, PtrInt, float)):
